@@ -34,6 +34,9 @@ pub enum Kind {
     StalledWithFdtUpdates,
     /// thousands of FDT instances (distinct ids) that are complete but already expired when they arrive
     ExpiredFdtInstances,
+    /// Reed-Solomon under-specified packets of ONE object whose source block numbers rise by steps of up to 4096 (tiny
+    /// blocks of one symbol): the list of blocks an object may hold is bounded in total, not per packet
+    SparseBlockNumbers,
     /// thousands of VALID single-packet FDT instances (distinct ids, each announcing another TOI), every one received
     /// twice (carousel repetition): only a bounded number of instances is current
     RepeatedValidFdtInstances,
@@ -94,8 +97,9 @@ pub fn gen(idx: u64, rng: &mut Rng, tier: Tier) -> Scn {
         Kind::LyingBlockLength,
         Kind::FilterChurn,
         Kind::RepeatedValidFdtInstances,
+        Kind::SparseBlockNumbers,
     ];
-    let kind = kinds[(idx % 13) as usize];
+    let kind = kinds[(idx % 14) as usize];
     let cache = *rng.pick(&[1024usize, 4096, 16 * 1024, 64 * 1024, if tier == Tier::Thorough { 1024 * 1024 } else { 32 * 1024 }]);
     let scheme = match kind {
         Kind::MissingSymbol | Kind::StalledWithFdtUpdates | Kind::InterruptedObjects => Scheme::NoCode,
@@ -310,6 +314,27 @@ pub fn run(scn: &Scn, ctx: &Ctx, scratch: &Path) {
             }
             block_bytes = 4 * e;
         }
+        Kind::SparseBlockNumbers => {
+            let step = *[4096u32, 4000, 1024][(scn.e as usize / 256) % 3..].first().unwrap();
+            for i in 0..(scn.factor as u32 * 30) {
+                let (tl, ol) = wire::field_lens(1, 1);
+                traffic.push(wire::encode(&Build {
+                    cci_words: 1,
+                    tsi: 1,
+                    tsi_len: tl,
+                    toi: 1,
+                    toi_len: ol,
+                    cp: wire::FEC_RS28US,
+                    fti: Some(Fti { fec: wire::FEC_RS28US, transfer_length: 1 << 40, e: e as u32, b: Some(1), max_n: Some(2), instance_id: Some(0), z: None, n: None, al: None }),
+                    sbn: (i + 1) * step,
+                    esi: 0,
+                    sbl: 1,
+                    payload: vec![0x55; e],
+                    ..Default::default()
+                }));
+            }
+            block_bytes = e;
+        }
         Kind::LyingBlockLength => {
             // announced blocks of `sbl` symbols (OTI maximum: 4), `sbl - 2` of them sent: never decodable
             let sbl = 60u32;
@@ -518,10 +543,11 @@ pub fn run(scn: &Scn, ctx: &Ctx, scratch: &Path) {
         Kind::RepeatedValidFdtInstances => "inject-repeated-valid-fdt-instances",
         Kind::InterruptedObjects => "drop-class-first-symbol-keep-close-object",
         Kind::LyingBlockLength => "inject-lying-source-block-length",
+        Kind::SparseBlockNumbers => "inject-sparse-source-block-numbers",
         Kind::FilterChurn => "tsi-filter-churn",
     });
     match scn.kind {
-        Kind::NoFdtInband | Kind::NoFdtCached | Kind::MissingSymbol | Kind::NoFdtCachedTinyPayload | Kind::LyingBlockLength => {
+        Kind::NoFdtInband | Kind::NoFdtCached | Kind::MissingSymbol | Kind::NoFdtCachedTinyPayload | Kind::LyingBlockLength | Kind::SparseBlockNumbers => {
             let volume: usize = traffic.iter().map(|b| b.len()).sum();
             ctx.borrow_mut().note(&format!("held/bound-decile:{:?}:{}", scn.kind, (worst_growth * 10 / one_object_bound.max(1)).min(99)));
             if worst_growth > one_object_bound {
@@ -533,6 +559,7 @@ pub fn run(scn: &Scn, ctx: &Ctx, scratch: &Path) {
                         Kind::NoFdtCachedTinyPayload => "packet-cache-tiny-payload",
                         Kind::NoFdtInband => "decoded-blocks-without-fdt",
                         Kind::LyingBlockLength => "blocks-announced-by-the-packets",
+                        Kind::SparseBlockNumbers => "sparse-block-numbers",
                         _ => "incomplete-blocks",
                     },
                     format!(
@@ -542,7 +569,7 @@ pub fn run(scn: &Scn, ctx: &Ctx, scratch: &Path) {
                 );
             }
             // beyond the limit the object is abandoned and, when the list has room, counted in error
-            if volume > 4 * scn.cache + 8 * block_bytes && scn.kind != Kind::MissingSymbol && scn.kind != Kind::LyingBlockLength {
+            if volume > 4 * scn.cache + 8 * block_bytes && scn.kind != Kind::MissingSymbol && scn.kind != Kind::LyingBlockLength && scn.kind != Kind::SparseBlockNumbers {
                 if !abandoned {
                     violate(
                         ctx,
